@@ -227,6 +227,10 @@ func raiseIndexOutOfBounds(opts *options, value value, idx int) Error {
 
 func raiseInvalidTopLevelType(v interface{}, meta *Meta) Error {
 	// could be developers or user fault
+	if v == nil {
+		message := "type 'nil' is not supported on top level of config, only dictionary or list"
+		return raiseErr(ErrTypeMismatch, messageMeta(message, meta))
+	}
 	t := chaseTypePointers(chaseValue(reflect.ValueOf(v)).Type())
 	message := fmt.Sprintf("type '%v' is not supported on top level of config, only dictionary or list", t)
 	return raiseErr(ErrTypeMismatch, messageMeta(message, meta))
